@@ -258,7 +258,8 @@ def _print_stmt(s, style, out):
     elif k == "setblock":
         out.append("{%% set %s %%}%s{%% endset %%}" % (s[1], print_body(s[2], style)))
     elif k == "if":
-        out.append("{%% if %s %%}%s" % (_p(s[1], style), print_body(s[2], style)))
+        test = s[1] if s[1][0] != "cond" else ["paren", s[1]]  # an if test takes no bare conditional expression
+        out.append("{%% if %s %%}%s" % (_p(test, style), print_body(s[2], style)))
         if s[3] is not None:
             out.append("{%% else %%}%s" % print_body(s[3], style))
         out.append("{% endif %}")
@@ -887,6 +888,8 @@ def _templates(max_depth, max_stmts, nlifts):
                 ty = "any"  # deliberately ill-typed operand
             if ty == "num":
                 ty = pick(["int", "int", "float"])
+            if ty == "tuple":
+                ty = "list"
             if ty == "dict":
                 return dict_lit(max(d, 0), scope) if d > 0 else ["dict", []]
             if d <= 0 or ty in ("markup", "none", "smallint") or (d < max_depth and chance(14)):
